@@ -7,4 +7,76 @@ from specs.prim import sext31
 class prel31:
     params = dict(address=U32, place=U64)
     requires = ["address & 0x80000000 == 0"]
+    returns = Int
     ensures = ["result == (place + sext31(address)) % 2**64"]
+from contracts._shapes import *
+from specs.elf import P, kind
+from specs.ehabi_k1 import prel31, entry_kind, nth_opcode
+
+IdxSec = Obj('Section', header=ShdrT, name=Str, stream=Stream)
+InfoT = Obj('EHABIInfo', _arm_idx_section=IdxSec, _struct=StructsT('EHABIStructs'), _num_entry=Opt(Nat))
+
+
+@contract("elftools/ehabi/ehabiinfo.py", "EHABIInfo.num_entry", props=["C20"])
+class num_entry:
+    """index entries are 8 bytes"""
+    params = dict(self=InfoT)
+    requires = ["self._num_entry is None or self._num_entry == self._arm_idx_section.header.sh_size // 8"]
+    returns = Int
+    ensures = ["result == self._arm_idx_section.header.sh_size // 8", "self._num_entry == result"]
+
+
+@contract("elftools/ehabi/ehabiinfo.py", "EHABIInfo.section_offset", props=["C20"])
+class section_offset:
+    inline = True
+
+
+for _c in ("EHABIEntry", "CorruptEHABIEntry", "CannotUnwindEHABIEntry", "GenericEHABIEntry"):
+    @contract("elftools/ehabi/ehabiinfo.py", "%s.__init__" % _c, props=["C20"])
+    class _e:
+        inline = True
+
+
+@contract("elftools/ehabi/ehabiinfo.py", "EHABIInfo.get_entry", props=["C20"])
+class get_entry:
+    """EHABI 5 (index table entry) and 6.3 (compact model table entries): function address =
+    prel31(word0) relative to the entry; word1 = 1: cannot unwind; bit 31 clear: prel31 offset of a
+    table entry (generic model when its first word has bit 31 clear, else compact model 0/1/2 with
+    its byte-code); bit 31 set: inline compact model 0"""
+    params = dict(self=InfoT, n=Nat)
+    requires = ["self._num_entry is None or self._num_entry == self._arm_idx_section.header.sh_size // 8",
+                "self._arm_idx_section.header.sh_offset + self._arm_idx_section.header.sh_size < 2**62"]
+    returns = Any
+    ghost = {"$B": "self._arm_idx_section.stream.B", "$o": "self._arm_idx_section.header.sh_offset + 8 * n",
+             "$w0": "P('EH_index_struct', self._arm_idx_section.stream.B, self._arm_idx_section.header.sh_offset + 8 * n).word0",
+             "$w1": "P('EH_index_struct', self._arm_idx_section.stream.B, self._arm_idx_section.header.sh_offset + 8 * n).word1",
+             "$t0": "P('EH_table_struct', self._arm_idx_section.stream.B, prel31(P('EH_index_struct', self._arm_idx_section.stream.B,"
+                    " self._arm_idx_section.header.sh_offset + 8 * n).word1, self._arm_idx_section.header.sh_offset + 8 * n + 4)).word0"}
+    ensures = ["kind(result) == entry_kind($B, $o, $w0, $w1)",
+               "result.corrupt or result.function_offset == prel31($w0, $o)",
+               "kind(result) != 'GenericEHABIEntry' or result.personality == "
+               "prel31(P('EH_table_struct', $B, prel31($w1, $o + 4)).word0, prel31($w1, $o + 4))",
+               "kind(result) != 'EHABIEntry' or $w1 < 2**31 or (result.personality == 0 and"
+               " result.bytecode_array == [($w1 // 2**16) % 256, ($w1 // 2**8) % 256, $w1 % 256])",
+               "kind(result) != 'EHABIEntry' or $w1 >= 2**31 or"
+               " result.personality == (P('EH_table_struct', $B, prel31($w1, $o + 4)).word0 // 2**24) % 128",
+               "kind(result) != 'EHABIEntry' or $w1 >= 2**31 or result.eh_table_offset is None or"
+               " result.eh_table_offset == prel31($w1, $o + 4)",
+               # compact models 1 and 2: two opcodes in the first word, then `more` words of four opcodes each,
+               # most significant byte first whatever the file's byte order
+               "kind(result) != 'EHABIEntry' or $w1 >= 2**31 or result.personality == 0 or"
+               " (len(result.bytecode_array) == 2 + 4 * (($t0 // 2**16) % 256) and"
+               " result.bytecode_array[0] == ($t0 // 2**8) % 256 and result.bytecode_array[1] == $t0 % 256 and"
+               " forall(lambda j: result.bytecode_array[2 + j] =="
+               " nth_opcode(P('EH_table_struct', $B, prel31($w1, $o + 4) + 4 + 4 * (j // 4)).word0, j % 4),"
+               " 0, 4 * (($t0 // 2**16) % 256)))",
+               "kind(result) != 'EHABIEntry' or $w1 >= 2**31 or result.personality != 0 or"
+               " result.bytecode_array == [($t0 // 2**16) % 256, ($t0 // 2**8) % 256, $t0 % 256]"]
+    raises = {"IndexError": "n >= self._arm_idx_section.header.sh_size // 8"}
+    may_raise = ["ELFParseError", "OverflowError"]
+    loops = {0: dict(invariant=[
+        "len(opcode) == 2 + 4 * $k",
+        "self._arm_idx_section.stream.pos == eh_table_offset + 4 + 4 * $k",
+        "opcode[0] == (word0 // 2**8) % 256", "opcode[1] == word0 % 256",
+        "forall(lambda j: opcode[2 + j] == nth_opcode(P('EH_table_struct', $B, eh_table_offset + 4 + 4 * (j // 4)).word0, j % 4),"
+        " 0, 4 * $k)"])}
